@@ -81,8 +81,8 @@ fn oligo_cases(rng: &mut Rng, cases: &mut u64) -> Option<Vec<(String, String)>> 
 
 fn cgr_cases(rng: &mut Rng, cases: &mut u64) -> Option<Vec<(String, String)>> {
     let recs = test_recs(rng, 4);
-    for k in [3usize, 4] {
-        for v in [None, Some(1usize), Some(2), Some(7), Some(1 << 20)] {
+    for k in [3usize, 4, 6] {
+        for v in (if k == 6 { vec![None] } else { vec![None, Some(1usize), Some(2), Some(7), Some(1 << 20)] }) {
             for counts in [false, true] {
                 let sc = Scratch::new("cli");
                 let inp = sc.path("in.fa"); let out = sc.path("out.txt"); let lib = sc.path("lib.txt");
@@ -92,6 +92,7 @@ fn cgr_cases(rng: &mut Rng, cases: &mut u64) -> Option<Vec<(String, String)>> {
                 if counts { a.push("-c".into()); }
                 *cases += 1;
                 if let Err(e) = run_cli(&a) { return wit(&a, e); }
+                let v = v.or(Some(k * k));   // without -v the square side is k*k
                 if let Some(v) = v {
                     // every CLI result equals the library result for the same settings
                     let (i2, l2) = (inp.clone(), lib.clone());
@@ -179,7 +180,8 @@ fn cov_cases(rng: &mut Rng, cases: &mut u64) -> Option<Vec<(String, String)>> {
         let y = std::fs::read(format!("{}/kmers.vectors", lib)).unwrap_or_default();
         if x != y || x.is_empty() { return wit(&a2, "second run into an output directory used before differs from the library run in a fresh directory".into()); }
     }
-    for bad in [vec!["-s", "4"], vec!["-c", "0"], vec!["-k", "6"], vec!["-m", "5"]] {
+    for bad in [vec!["-s", "4"], vec!["-c", "0"], vec!["-k", "6"], vec!["-m", "5"], vec!["-m", "129"], vec!["-m", "nan"], vec!["-m", "NaN"], vec!["-m", "inf"], vec!["-m", "7.5"], vec!["-m", "-6"],
+                vec!["-k", "32"], vec!["-s", "nan"], vec!["-c", "4"]] {
         let sc = Scratch::new("cli");
         let inp = sc.path("in.fa"); let out = sc.path("outd");
         write_fasta(&inp, &recs);
@@ -205,6 +207,57 @@ fn min_ctr_cases(rng: &mut Rng, cases: &mut u64) -> Option<Vec<(String, String)>
             let exists = std::path::Path::new(&out).exists();
             if ok && (r.is_err() || !exists) { return wit(&a, format!("valid window/minimiser sizes did not produce output ({:?})", r.err())); }
             if !ok && exists { return wit(&a, "a window not longer than the minimiser was not refused".into()); }
+        }
+    }
+    // counter: values outside the documented ranges are refused without output
+    for bad in [vec!["-k", "9"], vec!["-k", "32"], vec!["-m", "5"], vec!["-m", "129"], vec!["-m", "nan"], vec!["-m", "inf"], vec!["-m", "6.5"]] {
+        let sc = Scratch::new("cli");
+        let inp = sc.path("in.fa"); let out = sc.path("outd");
+        write_fasta(&inp, &recs);
+        let mut a = sv(&["ctr", "-i", &inp, "-o", &out, "-t", "2"]);
+        if bad[0] != "-k" { a.extend(sv(&["-k", "11"])); }
+        a.extend(bad.iter().map(|s| s.to_string()));
+        *cases += 1;
+        if run_cli(&a).is_ok() || std::path::Path::new(&format!("{}/kmers.counts", out)).exists() { return wit(&a, "out-of-range option of the counter was not refused".into()); }
+    }
+    // minimisers: values outside the documented ranges are refused without output
+    for bad in [vec!["-m", "6"], vec!["-m", "29"], vec!["-m", "nan"]] {
+        let sc = Scratch::new("cli");
+        let inp = sc.path("in.fa"); let out = sc.path("out.txt");
+        write_fasta(&inp, &recs);
+        let mut a = sv(&["min", "-i", &inp, "-o", &out, "-t", "2"]);
+        a.extend(bad.iter().map(|s| s.to_string()));
+        *cases += 1;
+        if run_cli(&a).is_ok() || std::path::Path::new(&out).exists() { return wit(&a, "out-of-range minimiser size was not refused".into()); }
+    }
+    // the thread option never changes the minimiser listings (as sets of lines), also when every worker writes much more than any buffer holds
+    {
+        let big: Vec<Vec<u8>> = (0..3000).map(|_| { let l = 150 + rng.below(200) as usize; random_seq(rng, l, 3).iter().map(|&b| if clean(b) || b == b'N' { b } else { b'N' }).collect() }).collect();
+        for preset in ["s2m", "m2s"] {
+            let sc = Scratch::new("cli");
+            let inp = sc.path("in.fa");
+            write_fasta(&inp, &big);
+            let mut reference: Option<Vec<String>> = None;
+            for t in ["1", "2", "8", "16"] {
+                let out = sc.path(&format!("out_{}.txt", t));
+                let a = sv(&["min", "-i", &inp, "-o", &out, "-m", "7", "-w", "12", "-p", preset, "-t", t]);
+                *cases += 1;
+                if let Err(e) = run_cli(&a) { return wit(&a, e); }
+                let text = std::fs::read_to_string(&out).unwrap_or_default();
+                let mut lines: Vec<String> = text.split('\n').map(|x| {
+                    if preset == "m2s" && x.contains("\t[") {
+                        let (k, v) = x.split_once('\t').unwrap();
+                        let mut items: Vec<&str> = v.trim_start_matches('[').trim_end_matches(']').split("), (").map(|it| it.trim_start_matches('(').trim_end_matches(')')).collect();
+                        items.sort();
+                        format!("{}\t{}", k, items.join("|"))
+                    } else { x.to_string() }
+                }).collect();
+                lines.sort();
+                match &reference {
+                    None => reference = Some(lines),
+                    Some(r) => if *r != lines { return wit(&a, format!("the {} listing of 3000 records with {} threads is not the same set of lines as with 1 thread ({} vs {} lines)", preset, t, lines.len(), r.len())); }
+                }
+            }
         }
     }
     for acgt in [false, true] {
@@ -293,7 +346,7 @@ fn stdin_vs_file_cases(rng: &mut Rng, cases: &mut u64) -> Option<Vec<(String, St
                 if unordered && x.contains("\t[") {
                     // m2s line: the list order inside a line is unspecified as well
                     let (k, v) = x.split_once('\t').unwrap();
-                    let mut items: Vec<&str> = v.trim_start_matches('[').trim_end_matches(']').split("), (").collect();
+                    let mut items: Vec<&str> = v.trim_start_matches('[').trim_end_matches(']').split("), (").map(|it| it.trim_start_matches('(').trim_end_matches(')')).collect();
                     items.sort();
                     format!("{}\t{}", k, items.join("|"))
                 } else { x.to_string() }
